@@ -123,6 +123,12 @@ static void judge_text(const std::string& t, const Cfg& c, const char* workload,
         std::string kind = d.substr(d.find(": ") + 2); kind = kind.substr(0, kind.find(' ', kind.find(' ') + 1));
         H.violation(std::string("parser/") + c.name + "/wrong-value/" + kind, J().str("text", t.substr(0, 400)).str("why", d.substr(0, 300)).str("got", describe(v).substr(0, 300)).done());
     }
+    // the same text into the sorted-object policy (duplicate names: the first one wins there too) and into wide characters
+    if (std::string(workload) != "exhaustive" || t.find('{') != std::string::npos) {
+        try { json sv = json::parse(t, o); std::string ds = val_diff(exp, sv); H.count_(std::string(workload) + ".sorted_policy_values");
+            if (!ds.empty()) { std::string kind = ds.substr(ds.find(": ") + 2); kind = kind.substr(0, kind.find(' ', kind.find(' ') + 1)); H.violation(std::string("parser/") + c.name + "/wrong-value-sorted-policy/" + kind, J().str("text", t.substr(0, 600)).str("why", ds.substr(0, 300)).str("got", describe(sv).substr(0, 300)).done()); } }
+        catch (const std::exception& e) { H.violation(std::string("parser/") + c.name + "/valid-rejected/sorted-policy", J().str("text", t.substr(0, 400)).str("what", e.what()).done()); }
+    }
 }
 
 // ---- foreign writer: serialises a generated value with random legal spelling ---------------------------------
@@ -166,6 +172,9 @@ static void put_val(std::string& out, Rng& r, int depth) {
         return;
     }
     size_t n = r.below(5);
+    bool wide = false;
+    if (k >= 8 && r.chance(1, 25)) { n = 14 + r.below(40); wide = true; }     // wide objects with repeated names (sort stability beyond 16 elements)
+    if (wide) { out += "{"; ws(out, r); size_t m = 3 + r.below(n); for (size_t i = 0; i < n; ++i) { if (i) { out += ","; ws(out, r); } put_str(out, "k" + std::to_string(r.below(m)), r); ws(out, r); out += ":"; ws(out, r); out += std::to_string(i); ws(out, r); } out += "}"; return; }
     if (k < 8) { out += "["; ws(out, r); for (size_t i = 0; i < n; ++i) { if (i) { out += ","; ws(out, r); } put_val(out, r, depth - 1); ws(out, r); } out += "]"; }
     else { out += "{"; ws(out, r); for (size_t i = 0; i < n; ++i) { if (i) { out += ","; ws(out, r); } static const char* ks[] = {"a", "b", "a", "", "k\"q", "\xc3\xa9"}; put_str(out, r.chance(2, 3) ? std::string(r.pick(ks)) : gen_string(r, 10), r); ws(out, r); out += ":"; ws(out, r); put_val(out, r, depth - 1); ws(out, r); } out += "}"; }
 }
